@@ -262,7 +262,7 @@ impl Conn {
                 self.buf.extend_from_slice(&tmp[..n]);
                 true
             }
-            Err(ref e) if e.kind() == std::io::ErrorKind::WouldBlock || e.kind() == std::io::ErrorKind::TimedOut => false,
+            Err(ref e) if e.kind() == std::io::ErrorKind::WouldBlock || e.kind() == std::io::ErrorKind::TimedOut || e.kind() == std::io::ErrorKind::Interrupted => false,
             Err(_) => {
                 self.eof = true;
                 self.reset = true;
